@@ -69,6 +69,7 @@ func cmdProve(args []string) {
 	all := fs.Bool("all", false, "print every obligation")
 	thorough := fs.Bool("thorough", false, "confirm with a second solver")
 	prof := fs.String("cpuprofile", "", "write cpu profile")
+	simFlag := fs.Bool("sim", false, "enable the spec simulation driver")
 	fs.Parse(args)
 	if *prof != "" {
 		f, _ := os.Create(*prof)
@@ -93,7 +94,7 @@ func cmdProve(args []string) {
 			continue
 		}
 		fc := eng.contracts.Funcs[a]
-		fp := eng.NewFuncProof(f, fc, ProofOpts{Mode: *mode, QuickMs: 4000, SlowMs: 20000, Thorough: *thorough, Verbose: *verbose})
+		fp := eng.NewFuncProof(f, fc, ProofOpts{Mode: *mode, QuickMs: 4000, SlowMs: 20000, Thorough: *thorough, Verbose: *verbose, Sim: *simFlag})
 		fp.Run()
 		tot, dis := fp.ledger.Counts()
 		fmt.Printf("== %s [%s]: %d/%d obligations discharged; blocks=%d cuts=%d paths=%d cands=%d kept=%d rounds=%d queries=%d %.1fs\n",
@@ -107,6 +108,22 @@ func cmdProve(args []string) {
 				for _, m := range e.Model {
 					fmt.Println("        ", m)
 				}
+			}
+		}
+		if *verbose && fp.sim != nil {
+			d := fp.sim.describe()
+			fmt.Printf("   sim: %v pairs, K=%v\n", d["inferred_spec_pairs"], fp.sim.K)
+			for _, c := range fp.cuts {
+				var ns []string
+				for tk := range fp.sim.S[c] {
+					vals := parseTuple(tk)
+					nm := fp.sim.tab.name(int(vals[len(vals)-1]))
+					if len(vals) > 1 {
+						nm = fmt.Sprintf("(%d,%s)", vals[0], nm)
+					}
+					ns = append(ns, nm)
+				}
+				fmt.Printf("   S[%s] = %s\n", c.Label, strings.Join(ns, " "))
 			}
 		}
 		if *verbose {
@@ -125,6 +142,9 @@ func cmdProve(args []string) {
 		}
 	}
 	pprof.StopCPUProfile()
+	for k, v := range eng.pool.stats {
+		fmt.Printf("solver %s: %d queries, %.1fs total, unsat=%d sat=%d other=%d\n", k, v.Queries, v.Secs, v.Unsat, v.Sat, v.Other)
+	}
 	if bad > 0 {
 		eng.pool.Close()
 		os.Exit(1)
